@@ -4792,6 +4792,9 @@ def container_script_repr(container,imports,prefix,settings):
         d1,d2='(',')'
     else:
         raise NotImplementedError
+    # a one-element tuple needs its trailing comma: (x,)
+    if isinstance(container,tuple) and len(result)==1:
+        result.append('')
     rep=d1+','.join(result)+d2
 
     # no imports to add for built-in types
